@@ -399,6 +399,41 @@ def run_C17(ctx):
                 gen_cpp.count(stats, 'include-override:read')
             impl.do('cpp read_file %s' % H(b'otop.cfg')); impl.do('dump')
             impl.do('cpp init'); impl.do('cpp read_string %s' % H(b'@include "o1.cfg|o2.cfg"\n')); impl.do('dump')
+    # -- Setting::exists(name) is the C config_setting_get_member(s, name) != NULL: a DIRECT child of that name. Names that
+    #    look like paths (they resolve through lookup()) are not child names; asked of every kind of setting
+    def exists_fn(impl, rng, stats):
+        H = gen_cpp.hexs
+        impl.do('cpp init')
+        impl.do('cpp read_string %s' % H(b'y = 1; sub = { x = 1; deep = { z = 2; }; }; lst = ( 1, { q = 1; } ); arr = [1, 2];\n'))
+        for p in ('/', '/1', '/1/1', '/2', '/2/1', '/3', '/0'):
+            for nm in (b'y', b'sub', b'x', b'deep', b'z', b'q', b'nope', b'sub.x', b'sub:x', b'sub/x', b'.y', b'.sub', b'sub.', b'lst.[0]', b'[0]', b'[1]',
+                       b'sub.deep.z', b'deep.z', b'[1].q', b'lst.[1].q', b'arr.[0]', b'', None):
+                impl.do('cpp exists %s %s' % (p, H(nm))); impl.do('cpp member %s %s' % (p, H(nm)))
+                impl.do('cpp lookup_value int %s %s' % (p, H(nm)))
+                gen_cpp.count(stats, 'exists-names')
+        impl.do('dump')
+    # -- the exception class follows the C error type whatever the entry point: a text read with readString that includes a
+    #    file which opens but cannot be read is a FILE I/O error (FileIOException), as it is for read() and readFile()
+    def ioerr_fn(impl, rng, stats):
+        H = gen_cpp.hexs
+        BAD = b'/proc/self/mem'
+        try:
+            fd = os.open(BAD.decode(), os.O_RDONLY)
+            try:
+                os.read(fd, 16); readable = True
+            except OSError:
+                readable = False
+            os.close(fd)
+        except OSError:
+            readable = True
+        if readable:
+            gen_cpp.count(stats, 'ioerr:no-unreadable-file-on-this-system'); return
+        impl.do('mkfile %s %s' % (H(b'iomid.cfg'), H(b'm = 1;\n@include "/proc/self/mem"\nn = 2;\n')))
+        for t in (b'@include "/proc/self/mem"\n', b'a = 1;\n@include "/proc/self/mem"\nb = 2;\n', b'@include "iomid.cfg"\nz = 1;\n',
+                  b'a = 1;\n@include "/proc/self/mem"\nb = ;\n'):
+            impl.do('cpp init'); impl.do('cpp read_string %s' % H(b'old = 1;\n'))
+            impl.do('cpp read_string_ioerr %s %s' % (H(BAD), H(t))); impl.do('dump')
+            gen_cpp.count(stats, 'ioerr:readString-include-unreadable')
     cpp_oracle = make_oracle()
     def oracle(ops, outs):
         for i, (op, out) in enumerate(zip(ops, outs)):
@@ -409,7 +444,7 @@ def run_C17(ctx):
                 if out != want:
                     return i, 'failing allocation %d of %d inside C++ calls -> %s (required: %s)' % (k, n, out, want)
         return cpp_oracle(ops, outs)
-    correspondence(ctx, fns + [alloc_fn, override_fn], proj, oracle, 'C17 C++ API agreement', 'cpp', driver='drv_cpp.cc', extra=WRAP)
+    correspondence(ctx, fns + [alloc_fn, override_fn, exists_fn, ioerr_fn], proj, oracle, 'C17 C++ API agreement', 'cpp', driver='drv_cpp.cc', extra=WRAP)
     exe = os.path.join(ctx['work'], 'h', 'drv_cpp')
     if not os.path.exists(exe):
         return
